@@ -719,7 +719,7 @@ def gen_c13(r, knobs=None):
                     others = [c for c in live if c not in members]
                     dele = r.random() < 0.3 and all(b.delete_ok(m, ns, others + [m]) for m in members)
                     b.bump(members[0], ns, 0.5)
-                    b.op(op='mforce', mid=mid, tasks=ns, names=ns, recompute=r.random() < 0.4 and not faulty, delete=dele)
+                    b.op(op='mforce', mid=mid, tasks=ns, names=ns, recompute=r.random() < 0.4 and not faulty, delete=dele, single_as_str=b.rr.random() < 0.5)
             elif t < 0.93:
                 # forcing through one member chain (graph queries on a chain that holds shared task objects)
                 cid = r.choice(live)
